@@ -30,7 +30,9 @@ let snapshot cfg hk s =
   let host = String.concat ";" (List.concat_map (fun k ->
       let l = List.filter_map (fun (sl, k') -> if int_of_n k' = k then Some sl else None) s.hostacq in
       if l = [] then [] else [string_of_int k ^ ":" ^ slots l]) keys) in
-  let idle = String.concat ";" (List.map (fun (c, k) -> string_of_int (int_of_n c) ^ ":" ^ string_of_int (int_of_n k)) s.idle) in
+  let idle = String.concat ";" (List.concat_map (fun k ->
+      let l = List.filter_map (fun (c, k') -> if int_of_n k' = k then Some (int_of_n c) else None) s.idle in
+      if l = [] then [] else [string_of_int k ^ ":" ^ ints l]) keys) in
   let wait = String.concat ";" (List.concat_map (fun k ->
       let l = List.filter (fun ((_, k'), _) -> int_of_n k' = k) s.waiters in
       if l = [] then [] else [string_of_int k ^ ":" ^ String.concat "," (List.map (fun ((t, _), c) -> string_of_int (int_of_n t) ^ (if c then "x" else "")) l)]) keys) in
